@@ -28,7 +28,9 @@ RULE = (
     "(functional / module) over the menus: constant, affine-basis (E_a, E_a+E_b, E_a-E_b, generic), quadratic-basis and smooth fields; "
     "edges u->u+affine, u->c u (c in -1,2,-1/2,3), spacing->k spacing (k in 2,1/2), reduction none/mean/sum, 3-D linear tensors; "
     "all pairs of elastic constants on 4 materials; inverse consistency on exact inverse pairs and on (translation, identity) pairs for "
-    "units x align_corners x margin x mask x reduction; distinct = (sub-check, configuration, loss, field, edge); "
+    "units x align_corners x margin x mask x reduction; memory layout: the displacement / coefficient field of every regulariser (functional and module) and the forward map, "
+    "inverse map and mask of inverse_consistency_loss as transposed view, step-sliced view and stride-0 expanded batch must give the result of the contiguous form and stay unchanged; "
+    "distinct = (sub-check, configuration, loss, field, edge); "
     "non-trivial = the judged loss value (or relation side) is non-zero"
 )
 EXPLANATION = "exhaustive exploration of regulariser axioms as relations between evaluations of the real losses, with analytic anchors"
@@ -51,7 +53,7 @@ ASSUMPTIONS = [
 MIN_NONTRIVIAL = {"quick": 29000, "thorough": 70000}
 MIN_OUTCOMES = {"quick": 16000, "thorough": 40000}
 MIN_SUB_TRACES = {"null1": 4500, "analytic": 9700, "null2": 2200, "affine-add": 270, "analytic2": 2400, "scale": 2000, "linear": 960,
-                  "reduce": 3600, "lame": 70, "bspline": 570, "ic-zero": 160, "ic-units": 3400, "ic-exp": 6, "reuse": 230}
+                  "reduce": 3600, "lame": 70, "bspline": 570, "ic-zero": 160, "ic-units": 3400, "ic-exp": 6, "reuse": 230, "layout": 280}
 
 LOSS_CLASS = {
     "grad_loss": "GradLoss", "bending_loss": "Bending", "curvature_loss": "Curvature", "diffusion_loss": "Diffusion",
@@ -203,6 +205,10 @@ class Judge:
         cfg = c.get("cfg")
         if cfg:
             parts.append(f"mode={cfg['mode']}/D={cfg['D']}/sp={cfg['sp']}")
+        if c["sub"] == "layout":
+            if c["target"] == "loss":
+                return f"C17/layout/fn={fn_label(c['fn'], c.get('args', {}))}/form={c['form']}/mode={c['cfg']['mode']}/D={c['cfg']['D']}/reduction={c['reduction']}/operand=field/layout={c['layout']}/{kind}"
+            return f"C17/layout/fn=inverse_consistency_loss/rep={c['rep']}/D={len(c['grid']['size'])}/ac={c['grid']['ac']}/units={c['units']}/operand={c['operand']}/layout={c['layout']}/{kind}"
         if c["sub"] == "reuse":
             parts.append(f"mode={c['modkw']['mode']}/sp={c['modkw']['sp']}/D0={c['steps'][0]['D']}/reduction={c['reduction']}")
         for k in ("edge", "pair", "units", "ac", "opt", "kind"):
@@ -980,7 +986,123 @@ def case_reuse(J: Judge, case):
             J.close(f"call{n + 1}/value", f"{tag}: analytic mean", float(g), e, tol)
 
 
+LAYOUT_LOSSES = [("grad_loss", {}), ("diffusion_loss", {}), ("divergence_loss", {}), ("total_variation_loss", {}),
+                 ("elasticity_loss", {"first_parameter": 0.75, "second_parameter": 1.5}), ("bending_loss", {}), ("curvature_loss", {})]
+LAYOUT_FORMS = ["transposed", "sliced", "expanded"]
+
+
+def fingerprint(t):
+    return (t._version, tuple(t.shape), tuple(t.stride()), t.detach().clone().contiguous().to(torch.float64).numpy().tobytes())
+
+
+def layout_pair(t, form, N):
+    """(contiguous reference, same values in the other layout) or None; 'expanded' makes a stride-0 batch of item 0."""
+    from ref.layout import applicable, relayout
+
+    if form == "expanded":
+        return relayout(t[0], "repeat", N), relayout(t[0], "expanded", N)
+    if not applicable(t, form):
+        return None
+    v = relayout(t, form)
+    if v.is_contiguous():
+        return None
+    return relayout(t, "contig"), v
+
+
+def case_layout(J: Judge, case):
+    """Same values, other memory layout of a user tensor (field / coefficients, forward / inverse map, mask): no exception,
+    result equal to the result with contiguous arguments, arguments unchanged (bits and _version)."""
+    form, N = case["layout"], 2
+    if case["target"] == "loss":
+        cfg, fn, args, cform, red = case["cfg"], case["fn"], case["args"], case["form"], case["reduction"]
+        D = cfg["D"]
+        if fn == "bspline_bending_loss":
+            from checks.c12_derivatives import coef_lattice
+
+            u0 = torch.tensor(coef_lattice("generic", N, D, tuple(cfg["shape"]), cfg.get("seed", 0)), dtype=DT[cfg["dtype"]])
+            B = None
+            kw = {"reduction": red, "stride": 2}
+            scale = None
+        else:
+            B = BuiltF(cfg, [{"smooth": v, "D": D} for v in range(N)])
+            u0 = B.u
+            kw = loss_kwargs(fn, args, B, red)
+        pair = layout_pair(u0, form, N)
+        if pair is None:
+            J.undef.append("layout variant not applicable / contiguous for this shape")
+            return
+        u_ref, u_tst = pair
+        st, ref = eval_loss(J, fn, args, cform, u_ref, kw)
+        if st == "raises":
+            J.raised("contig", ref)
+            return
+        before = fingerprint(u_tst)
+        st, res = eval_loss(J, fn, args, cform, u_tst, kw)
+        if st == "raises":
+            J.bad("raises=" + type(res).__name__, exc_text(res))
+            return
+        if fingerprint(u_tst) != before:
+            J.bad("operand-mutated", "the field (bits / _version) was changed by the call")
+        if tuple(res.shape) != tuple(ref.shape):
+            J.bad("shape", f"shape {tuple(res.shape)} vs contiguous {tuple(ref.shape)}")
+            return
+        x, y = res.detach().double().numpy(), ref.detach().double().numpy()
+        J.outcomes.append((form, np.round(x, 5).tobytes()))
+        if B is not None:
+            tol = tol_loss(B, fn, args, float(np.abs(y).max()))
+        else:
+            tol = C * EPS[cfg["dtype"]] * D ** 3 * (2.0 * 8.0 / (2.0 / (max(cfg["shape"]) - 1)) ** 2) ** 2
+        J.close("value", f"layout {form} vs contiguous", x, y, tol)
+        return
+    # inverse consistency: forward / inverse map / mask
+    g = case["grid"]
+    size, ac = g["size"], g["ac"]
+    D = len(size)
+    shape = tuple(size[::-1])
+    dtype = torch.float32
+    X = ic_coords(size, ac)
+    maps = IC_MAPS[D]
+    Mf, tf = np.array(maps[3][1], float), np.array(maps[3][2], float)
+    Mb, tb = np.array(maps[1][1], float), np.array(IC_T[D][1], float)  # not the inverse: non-zero, non-constant error
+    if case["rep"] == "flow":
+        fwd = torch.cat([flow_of_affine(Mf, tf * (1 + i), X, dtype) for i in range(N)])
+        inv = torch.cat([flow_of_affine(Mb, tb * (1 + i), X, dtype) for i in range(N)])
+    else:
+        fwd = torch.cat([affine_tensor(Mf, tf * (1 + i), dtype) for i in range(N)])
+        inv = torch.cat([affine_tensor(Mb, tb * (1 + i), dtype) for i in range(N)])
+    mask = torch.tensor(ic_mask(shape, N, "label"), dtype=dtype)
+    ops = {"forward": fwd, "inverse": inv, "mask": mask}
+    pair = layout_pair(ops[case["operand"]], form, N)
+    if pair is None:
+        J.undef.append("layout variant not applicable / contiguous for this shape")
+        return
+    ref_ops, tst_ops = dict(ops), dict(ops)
+    ref_ops[case["operand"]], tst_ops[case["operand"]] = pair
+    grid = ic_grid(g)
+    k = unit_factors(size, g["spacing"], ac, case["units"])
+    tol = C * EPS["f32"] * 4.0 * float(np.linalg.norm(k)) * 4.0 * max(size)
+    for red in ("none", "mean"):
+        st, ref = ic_call(J, "ic", ref_ops["forward"], ref_ops["inverse"], grid=grid, mask=ref_ops["mask"], units=case["units"], reduction=red)
+        if st == "raises":
+            J.raised(f"contig/{red}", ref)
+            return
+        before = [fingerprint(t) for t in tst_ops.values()]
+        st, res = ic_call(J, "ic", tst_ops["forward"], tst_ops["inverse"], grid=grid, mask=tst_ops["mask"], units=case["units"], reduction=red)
+        if st == "raises":
+            J.bad("raises=" + type(res).__name__, exc_text(res))
+            return
+        if [fingerprint(t) for t in tst_ops.values()] != before:
+            J.bad("operand-mutated", "an argument tensor (bits / _version) was changed by the call")
+        if tuple(res.shape) != tuple(ref.shape):
+            J.bad("shape", f"{red}: shape {tuple(res.shape)} vs contiguous {tuple(ref.shape)}")
+            continue
+        x, y = res.detach().double().numpy(), ref.detach().double().numpy()
+        J.outcomes.append((form, red, np.round(x, 5).tobytes()))
+        J.close("value", f"{red}: layout {form} vs contiguous", x, y, tol)
+
+
 DISPATCH = {
+    "layout": case_layout,
     "reuse": case_reuse,
     "null1": case_null1, "analytic": case_analytic, "null2": case_null2, "affine-add": case_affine_add, "analytic2": case_analytic2,
     "scale": case_scale, "linear": case_linear, "reduce": case_reduce, "lame": case_lame, "bspline": case_bspline,
@@ -1137,6 +1259,29 @@ def cases_of(shard):
                             for form in forms_for(dt, stride):
                                 out.append({"sub": "reduce", "cfg": c, "fn": fn, "args": args, "form": form, "fields": fl})
                             out.append({"sub": "scale", "cfg": c, "fn": fn, "args": args, "form": "functional", "fields": fl, "cs": [-1.0, 2.0, -0.5, 3.0] if tier == "thorough" else [-0.5, 3.0], "ks": [2.0, 0.5] if tier == "thorough" else [2.0]})
+    elif kind == "layout":
+        D = shard["D"]
+        shp = [6, 7] if D == 2 else [5, 6, 7]
+        for fn, args in LAYOUT_LOSSES:
+            for form in ("functional", "module"):
+                for mode in ("default", "central", "bspline"):
+                    for lay in LAYOUT_FORMS:
+                        for red in ("mean", "none"):
+                            c = {"D": D, "shape": shp, "sp": "vec", "mode": mode, "N": 2, "dtype": "f32", "seed": seed}
+                            if mode == "bspline":
+                                c["stride"] = 2
+                            out.append({"sub": "layout", "target": "loss", "fn": fn, "args": args, "form": form, "cfg": c, "reduction": red, "layout": lay})
+        for form in ("functional", "module"):
+            for lay in LAYOUT_FORMS:
+                for red in ("mean", "none"):
+                    c = {"D": D, "shape": shp, "sp": "none", "mode": "bspline", "N": 2, "dtype": "f32", "seed": seed, "stride": 2}
+                    out.append({"sub": "layout", "target": "loss", "fn": "bspline_bending_loss", "args": {}, "form": form, "cfg": c, "reduction": red, "layout": lay})
+        for ac in (True, False):
+            g = dict(IC_GRIDS[D][0], ac=ac)
+            for rep in ("flow", "tensor"):
+                for operand in ("forward", "inverse", "mask"):
+                    for lay in LAYOUT_FORMS:
+                        out.append({"sub": "layout", "target": "ic", "grid": g, "rep": rep, "operand": operand, "layout": lay, "units": "voxel" if ac else "world"})
     elif kind == "reuse":
         D, mode = shard["D"], shard["mode"]
         A = {2: [5, 7], 3: [5, 6, 7]}
@@ -1270,6 +1415,7 @@ def shards(tier: str, seed: int):
             out.append({"tier": tier, "seed": seed, "kind": "bspline", "D": D, "shape": list(shape)})
         for mode in (("default", "central", "bspline") if tier == "quick" else ALL_MODES):
             out.append({"tier": tier, "seed": seed, "kind": "reuse", "D": D, "mode": mode})
+        out.append({"tier": tier, "seed": seed, "kind": "layout", "D": D})
         out.append({"tier": tier, "seed": seed, "kind": "ic-zero", "D": D})
         for units in ("cube", "voxel", "world"):
             out.append({"tier": tier, "seed": seed, "kind": "ic-units", "D": D, "units": units})
@@ -1299,6 +1445,8 @@ def bounds(tier):
         "ic_grids": {"D2": len(IC_GRIDS[2]), "D3": len(IC_GRIDS[3])},
         "ic_units": ["cube", "voxel", "world"],
         "ic_options": 10,
+        "layout": {"losses": [fn_label(f, a) for f, a in LAYOUT_LOSSES] + ["bspline_bending_loss"], "call_forms": ["functional", "module"], "modes": ["default", "central", "bspline"],
+                   "forms": LAYOUT_FORMS, "reductions": ["mean", "none"], "inverse_consistency_operands": ["forward", "inverse", "mask"], "representations": ["flow", "tensor"], "D": [2, 3]},
         "module_reuse": {"depth": "4 calls (6 where the spacing form allows a change of dimension) on ONE module object", "modes": ["default", "central", "bspline"] if tier == "quick" else ALL_MODES,
                          "spacing": ["none", "scalar", "vec"], "reductions": ["none", "mean"], "sequence": "shape A f32, finer shape B f32, A f32, B f64, (other D f32, A f64)"},
         "shards": len(shards(tier, 0)),
